@@ -322,7 +322,9 @@ type diskTrack struct {
 
 	kfRequested time.Time
 	lastKf      time.Time
-	savedKf     *rtp.Packet
+	// the first packets of the keyframes that may still be in the
+	// samplebuilder
+	savedKfs []*rtp.Packet
 }
 
 func newDiskConn(client *Client, up conn.Up, remoteTracks []conn.UpTrack) (*diskConn, error) {
@@ -509,7 +511,7 @@ func (t *diskTrack) writeRTP(p *rtp.Packet) error {
 	if len(codec) > 6 && strings.EqualFold(codec[:6], "video/") {
 		kf, _ := gcodecs.Keyframe(codec, p)
 		if kf {
-			t.savedKf = p
+			t.savedKfs = append(t.savedKfs, p)
 			t.lastKf = time.Now()
 			if !valid(t.origin) {
 				t.setOrigin(
@@ -566,15 +568,29 @@ func (t *diskTrack) writeBuffered(force bool) error {
 
 		var keyframe bool
 		if len(codec) > 6 && strings.EqualFold(codec[:6], "video/") {
-			if t.savedKf == nil {
-				keyframe = false
-			} else {
-				keyframe = (ts == t.savedKf.Timestamp)
+			// Samples come out in order, so keyframes older
+			// than this sample are of no further use.  Don't
+			// just compare with the last keyframe received,
+			// the sample may have been delayed by packet loss.
+			var savedKf *rtp.Packet
+			n := 0
+			for _, p := range t.savedKfs {
+				if int32(p.Timestamp-ts) < 0 {
+					continue
+				}
+				if p.Timestamp == ts && savedKf == nil {
+					savedKf = p
+				}
+				t.savedKfs[n] = p
+				n++
 			}
+			clear(t.savedKfs[n:])
+			t.savedKfs = t.savedKfs[:n]
+			keyframe = savedKf != nil
 
 			if keyframe {
 				w, h := gcodecs.KeyframeDimensions(
-					codec, t.savedKf,
+					codec, savedKf,
 				)
 				err := t.conn.initWriter(w, h, t, ts)
 				if err != nil {
